@@ -510,7 +510,8 @@ CONSUMERS = ("anytree/resolver.py", "anytree/walker.py", "anytree/render.py", "a
 def rule_M8_consumers(ctx):
     """M8: the read-only consumers named by the property (iterators, Walker, Resolver, RenderTree, search, util) treat a
     node as opaque: they never store an attribute on an object that is not `self`, never look at __dict__/__slots__/
-    vars() and never take weak references.  These are exactly the capabilities in which a dict-based (NodeMixin) and a
+    vars(), never take weak references and never test for ONE of the two mixin classes (isinstance with NodeMixin but not
+    LightNodeMixin or vice versa).  These are exactly the capabilities in which a dict-based (NodeMixin) and a
     slot-based (LightNodeMixin) node differ, so any use makes a query answer depend on the mixin."""
     from .common import walk_own
     p = ctx.p
@@ -549,6 +550,13 @@ def rule_M8_consumers(ctx):
                         bad = (node, "calls %s on an object that is not its own instance" % node.func.id)
                 elif isinstance(node, ast.Call) and "weakref" in norm(node.func):
                     bad = (node, "takes a weak reference (%s)" % norm(node.func))
+                elif isinstance(node, ast.Call) and isinstance(node.func, ast.Name) and node.func.id in ("isinstance", "issubclass") \
+                        and len(node.args) == 2:
+                    t_ = node.args[1]
+                    names_ = {norm(e) for e in (t_.elts if isinstance(t_, ast.Tuple) else [t_])}
+                    mix = names_ & {"NodeMixin", "LightNodeMixin"}
+                    if len(mix) == 1:
+                        bad = (node, "tests `%s` for %s only" % (norm(node.args[0]), next(iter(mix))))
                 if bad is not None:
                     ctx.viol("M8", f, bad[0], "%s %s: dict-based and slot-based nodes differ in exactly this capability, so the "
                              "result depends on the mixin" % (f.qual, bad[1]))
